@@ -26,6 +26,7 @@ from pyteal.ast.subroutine import (
     SubroutineCall,
     SubroutineDefinition,
     SubroutineFnWrapper,
+    _SubroutineDeclByOption,
 )
 from pyteal.ast.txn import Txn
 from pyteal.compiler.compiler import DEFAULT_TEAL_VERSION, Compilation, OptimizeOptions
@@ -1180,7 +1181,10 @@ class Router:
     def _cleaning_context(self):
         starting_slot_id = ScratchSlot.nextSlotId
         try:
-            yield
+            # declarations evaluated from here on hold slots numbered from starting_slot_id:
+            # they must be forgotten together with the rewind below
+            with _SubroutineDeclByOption._forgetting_context():
+                yield
         finally:
             self._clean()
             ScratchSlot.reset_slot_numbering(starting_slot_id)
